@@ -11,7 +11,7 @@ PadJobs(js) == [j \in Jobs |-> IF j <= Len(js) THEN js[j] ELSE NoJob]
 PadW(ws) == [p \in Pids |-> IF p <= Len(ws) THEN ws[p] ELSE NoWorker]
 
 Bind(o, a) ==
-    /\ pstate = o.pstate /\ nsub = o.nsub /\ job = PadJobs(o.job) /\ pool = o.pool
+    /\ hook = o.hook /\ pstate = o.pstate /\ nsub = o.nsub /\ job = PadJobs(o.job) /\ pool = o.pool
     /\ procs = o.procs /\ nextpid = Len(o.w) + 1 /\ sem = o.sem /\ rs = o.rs
     /\ dirty = ToSet(o.dirty) /\ inq = o.inq /\ outq = o.outq /\ w = PadW(o.w)
     /\ sigs = o.sigs /\ now = o.now /\ ndup = 0 /\ supd = FALSE /\ scand = FALSE
@@ -23,7 +23,7 @@ MonInit == /\ tid \in 1..Len(Obs) /\ l = 1
 MonNext == /\ l < Len(Obs[tid]) /\ l' = l + 1 /\ tid' = tid
            /\ LET o == Obs[tid][l + 1].state
                   a == Obs[tid][l + 1].act
-              IN /\ pstate' = o.pstate /\ nsub' = o.nsub /\ job' = PadJobs(o.job) /\ pool' = o.pool
+              IN /\ hook' = o.hook /\ pstate' = o.pstate /\ nsub' = o.nsub /\ job' = PadJobs(o.job) /\ pool' = o.pool
                  /\ procs' = o.procs /\ nextpid' = Len(o.w) + 1 /\ sem' = o.sem /\ rs' = o.rs
                  /\ dirty' = ToSet(o.dirty) /\ inq' = o.inq /\ outq' = o.outq /\ w' = PadW(o.w)
                  /\ sigs' = o.sigs /\ now' = o.now /\ ndup' = 0 /\ supd' = FALSE /\ scand' = FALSE
